@@ -1871,6 +1871,7 @@ impl Family for C13Family {
         let r = &mut r;
         let rwnd = *r.pick(&[1u32, 2, 4, 8]);
         let mut rs = vec![];
+        let mut huge_burst = false;
         for _ in 0..r.below(9) {
             match r.below(6) {
                 0 => rs.push(R::PendWake),
@@ -1888,7 +1889,8 @@ impl Family for C13Family {
             rs.clear();
             // one such run in twelve: more than 4 MiB ready back to back (whatever bound an
             // implementation puts on what it gathers into one frame, the rest must still move)
-            let huge = r.chance(1, 80);
+            let huge = r.chance(1, 20);
+            huge_burst = huge;
             let each = if huge { 262_144 } else { *r.pick(&[4096usize, 8192, 16_384, 65_536]) };
             for _ in 0..(if huge { 17 + r.below(4) } else { 4 + r.below(28) }) {
                 rs.push(R::Chunk(each));
@@ -1940,7 +1942,8 @@ impl Family for C13Family {
             peer_end: r.below(3) as u8,
             ack_mode: r.below(3) as u8,
             peer_yields: r.below(4),
-            bufreader: if r.chance(1, 3) { Some(*r.pick(&[1usize, 7, 64, 8192])) } else { None },
+            // (megabytes through a buffer of a few bytes would cost seconds per run and show nothing new)
+            bufreader: if r.chance(1, 3) { Some(if huge_burst { *r.pick(&[8192usize, 262_144]) } else { *r.pick(&[1usize, 7, 64, 8192]) }) } else { None },
             late_end: if r.chance(1, 3) { 1 + r.below(2) as u8 } else { 0 },
             coop: r.chance(1, 5),
             spurious: r.chance(1, 4),
